@@ -3,8 +3,8 @@
 id=$1; patch=$2; shift 2
 cd /repo || exit 9
 if ! git diff --quiet; then echo "repo dirty"; exit 9; fi
-git apply "$patch" 2>/dev/null || git apply --3way "$patch" 2>/dev/null || { echo "PATCH DOES NOT APPLY"; git checkout -- . ; exit 8; }
+git apply "$patch" 2>/dev/null || git apply --3way "$patch" 2>/dev/null || { echo "PATCH DOES NOT APPLY"; git reset -q --hard HEAD; exit 8; }
 cd /verif; ./check $id "$@" 2>&1 | grep -E "^\[C|^VIOLATION|^ENGINE|^LOST|^UNDECIDED|^  obligation" | cut -c1-260 | head -${HEAD:-14}
 rc=${PIPESTATUS[0]}
-git -C /repo checkout -- . ; git -C /repo status --short | head -3
+git -C /repo reset -q --hard HEAD; git -C /repo status --short | head -3
 exit $rc
